@@ -873,7 +873,8 @@ def run_intro(run, cfg, G):
 RX_ASSUME = [
     "which bytes are a JSON document of the requested shape is serde_json/serde's business: the model takes `decode this frame` as an opaque per-frame function (theorems hold for every such function); the harness instantiates it with the verdict of a fresh connection receiving that frame alone and cross-checks call receivers against serde_json::from_slice",
     "the ReadHalf contract: a read future that is dropped while pending has consumed nothing",
-    "frames are non-empty and contain no NUL; the whole stream is shorter than MAX_BUFFER_SIZE (oversize traffic is C17)",
+    "frames are non-empty and contain no NUL; what is bounded by MAX_BUFFER_SIZE is each burst between two moments at which everything that arrived has been handed out, not the stream (C01_any_length / C17_rx_threshold_any_history: any number of such bursts, any total); "
+    "a burst that is itself as long as the limit without being consumed in between is oversize traffic (C17)",
 ]
 
 TX_ASSUME = [
@@ -965,11 +966,11 @@ PROPS = {
     "C16": {
         "property_modules": ["Zlink.Properties.C16"], "lean_modules": ["Zlink.Properties.C16"],
         "theorems": ["C16.C16_atoms", "C16.C16_ctors", "C16.C16_tables_nodup", "C16.C16_type_mapping", "C16.C16_fields_exact",
-                     "C16.C16_field_names", "C16.C16_custom_struct", "C16.C16_enum_variants"],
+                     "C16.C16_field_names", "C16.C16_custom_struct", "C16.C16_enum_variants", "C16.C16_assembled_roundtrip"],
         "run": run_intro, "pregen": pregen_corpora, "package": "zvc", "trusted_base": TB_COMMON,
         "assumptions": [
             "rustc's trait resolution picks the impl the model looks up by the type's text (constructor name + fixed arguments); observed on the compiled corpus only",
-            "`renders to text that parses back to an equal description` is decided by the Lean oracle on the corpus (parser model of C13 on the implementation's text), not by a theorem: the general render/parse round trip (C14) is still open; the known D9 defect (documented enum variants render to text the parser refuses) is a listed finding",
+            "`renders to text that parses back to an equal description` is a theorem (C16_assembled_roundtrip = what the derives assemble is well-formed + the round-trip theorem of C14) for every module with legal Varlink names, outside two classes stated as decidable conditions: documented enum variants (the listed D9 finding) and Option directly around Option, also through transparent wrappers (`??T` is not Varlink; the corpus avoids it); on the compiled corpus the Lean oracle additionally checks the implementation's own text and parse result",
             "doc comments: `/// text` lines only (block doc comments span lines and cannot be one IDL comment); the comment is the line without surrounding blanks",
             "field, variant and type names of the corpus are legal Varlink names (a Rust name such as `_x` or `a__b` has no Varlink spelling; raw identifiers make the derive panic at compile time): outside the property's corpus",
             "external-crate impls (uuid, url, bytes, indexmap, chrono, time) are feature-gated and not compiled here",
@@ -1031,7 +1032,7 @@ PROPS = {
     "C17": {
         "property_modules": ["Zlink.Properties.C17"],
         "lean_modules": ["Zlink.Properties.C17"],
-        "theorems": ["C17.C17_rx_cap_bounded", "C17.C17_rx_accept", "C17.C17_rx_overflow", "C17.C17_rx_threshold", "C17.C17_rx_threshold_prod",
+        "theorems": ["C17.C17_rx_cap_bounded", "C17.C17_rx_accept", "C17.C17_rx_overflow", "C17.C17_rx_threshold", "C17.C17_rx_threshold_any_history", "C17.C17_rx_threshold_prod",
                      "C17.C17_tx_threshold", "C17.C17_tx_cap_bounded", "C17.consts_ok"],
         "run": run_bounds, "trusted_base": TB_COMMON,
         "assumptions": RX_ASSUME[:2] + TX_ASSUME + [
@@ -1043,7 +1044,7 @@ PROPS = {
     "C01": {
         "property_modules": ["Zlink.Properties.C01"],
         "lean_modules": ["Zlink.Properties.C01"],
-        "theorems": ["C01.C01_framing", "C01.C01_poll", "C01.C01_errors_local", "C01.C01_oracle"],
+        "theorems": ["C01.C01_framing", "C01.C01_poll", "C01.C01_errors_local", "C01.C01_oracle", "C01.C01_any_length", "C01.C01_phases_are_one_run"],
         "run": run_rx, "search": search_rx,
         "trusted_base": TB_COMMON, "assumptions": RX_ASSUME,
     },
